@@ -116,7 +116,7 @@ def py_invocations(p):
 
 def main(tier):
     chk = Check("C12", tier)
-    chk.prove(modules=["PyPred.Props.C12", "PyPred.Props.C12T"], checker=(tier == "thorough"), exes=("driver", "driver_cost"))
+    chk.prove(modules=["PyPred.Props.C12", "PyPred.Props.C12T", "PyPred.Props.C12P"], checker=(tier == "thorough"), exes=("driver", "driver_cost"))
     rng = random.Random(chk.seed)
     cfg, detail = optcorr.detect_cfg()
     chk.extra["cfg"] = cfg
@@ -155,6 +155,28 @@ def main(tier):
         if S.size(t) >= 20 and r > worst[0]:
             worst = (r, {"size": S.size(t), "invocations": int(calls), "input": S.show(t)[:120]})
     chk.add_corr("cost/exact-invocation-count", len(cc), cdis, note="model optimizeC vs sys.setprofile count of optimize / direct re-entries")
+    # the family of the lower-bound theorem (C12_cost_lower_exact): lbFam 0 = all(f0), lbFam (k+1) = all(f_{k+1}) & all(lbFam k)
+    # costs exactly 3k^2 + 10k + 2 invocations at size 4k + 2 -- the real code must agree call for call
+    from predicate import all_p as _allp, fn_p as _fnp
+    from predicate.predicate import AndPredicate as _And
+
+    def _lb(k):
+        fs = [(lambda x, i=i: True) for i in range(k + 1)]
+        t = _allp(_fnp(fs[0]))
+        for i in range(1, k + 1):
+            t = _And(left=_allp(_fnp(fs[i])), right=_allp(t))
+        return t
+
+    lbdis = []
+    ks = (0, 1, 2, 3, 8, 24) if tier == "quick" else (0, 1, 2, 3, 8, 24, 64, 128)
+    for k in ks:
+        try:
+            _o, got = py_invocations(_lb(k))
+        except Exception as e:  # noqa: BLE001
+            got = f"raised {type(e).__name__}"
+        if got != 3 * k * k + 10 * k + 2:
+            lbdis.append({"input": f"lbFam {k}", "theorem": 3 * k * k + 10 * k + 2, "implementation": got})
+    chk.add_corr("cost/lower-bound-family", len(ks), lbdis, note="C12_cost_lower_exact: 3k^2+10k+2 invocations at size 4k+2")
     chk.evaluations += len(cc)
     chk.extra["worst_invocations_over_size_squared"] = {"ratio": round(worst[0], 3), **(worst[1] or {})}
     # 2. cost: number of optimize* invocations on growing families (measurement, not proof)
@@ -250,10 +272,10 @@ def main(tier):
     chk.evaluations += calls
     chk.extra["purity_sequences"] = nseq
     chk.extra["purity_calls"] = calls
-    chk.extra["not_proved"] = (
-        "A polynomial bound on the number of optimize invocations is NOT proved (proved: termination, recursion depth <= 4*size+2, result never heavier, "
-        "a finite exponential bound on the count, a linear bound on the and/or/not fragment).  The growth per family is a measurement of the model's exact "
-        "counter, which is compared with the implementation's call count case by case."
+    chk.extra["polynomial_bound"] = (
+        "PROVED (Props/C12P.lean): for every tree, constant type and configuration the model makes at most 12*w(p)^2 <= 48*size^2 optimize invocations "
+        "(C12_cost_quadratic, C12_invocations_quadratic for the exact counter), with a matching quadratic lower bound (C12_cost_lower_exact).  The counter is "
+        "compared with the implementation's call count case by case on every run; the growth per family below is an additional measurement on the real code."
     )
     chk.rule = (
         "termination: every propositional tree <= %d nodes, sampled scalar pair shapes, random quantified trees and %d random trees of 60-400 nodes, model vs "
